@@ -6,13 +6,14 @@
   Trace tokens (one run of the real code, in terminal-stream order):
     I:t:id     main thread hands message `id` to printing thread `t`
     R          main thread asks the editing thread to start a read
-    K:<key> D  main thread starts / has finished writing a key (p<cp> plain, e Enter, s `M-1`, x `C-g`)
+    K:<key> D  main thread starts / has finished writing a key (p<cp> plain, e Enter, s `M-1`, r `C-r`, x `C-g`)
     S:1 | S:0  every `print` call issued so far has returned | gave up waiting
     Q:b|r|f|t  the reader sleeps in select | sleeps in read(0) (sub-loop) | no read is running | gave up
     + | -      bracketed-paste-on / -off marker in the stream (raw mode entered / about to be left)
     P          first drawing of the prompt after `+`
     M:s:t:id:w message shown by the editor (preceded by the row-clearing sequence); w = 1 iff it is
-               followed by a line break and a repaint of prompt + line
+               followed by a line break and a repaint of prompt + line (inside a sub-loop: of the
+               sub-loop's own prompt)
     M:d:t:id:w message written directly; w = 1 iff its own line break (if any) follows
     X          a fragment of a message
     => L=<lines returned by the reads>
@@ -28,7 +29,7 @@ structure Obs where
 
 def parseKey (s : String) : Option Key :=
   if s == "e" then some .enter
-  else if s == "s" then some .sub
+  else if s == "s" || s == "r" then some .sub   -- digit argument / incremental search (left with C-g)
   else if s == "x" then some .exit
   else if s.startsWith "p" then
     (s.drop 1).toString.toNat?.bind (fun c => if 97 ≤ c && c ≤ 122 then some (.plain c) else none)
